@@ -204,11 +204,11 @@ func checkInject(c *InjectCase) error {
 		return fmt.Errorf("harness: not servable")
 	}
 	if c.Quiet && st.fellBack {
-		return fmt.Errorf("a packet failing the validity gate was injected at index %d (class %d) and the master then stayed silent: Stream had not returned 3 s later", c.At, c.Sub%8)
+		return fmt.Errorf("a packet failing the validity gate was injected at index %d (class %d) and the master then stayed silent: Stream had not returned 3 s later", c.At, c.Sub%badClasses)
 	}
 	before := commitsIn(l, st.evIdx, c.At)
 	if st.streamErr == nil {
-		return fmt.Errorf("a packet failing the validity gate was injected at index %d (class %d) but Stream returned nil", c.At, c.Sub%8)
+		return fmt.Errorf("a packet failing the validity gate was injected at index %d (class %d) but Stream returned nil", c.At, c.Sub%badClasses)
 	}
 	if len(st.got) > before {
 		return fmt.Errorf("%d transactions were delivered although only %d commit events precede the malformed packet at index %d", len(st.got), before, c.At)
@@ -376,7 +376,7 @@ func TestC17(t *testing.T) {
 			}
 			payloads, _, _ := l.Served(h.FirstFile, h.Base)
 			pacing := rapid.IntRange(0, 1).Draw(rt, "pacing")
-			sub := rapid.IntRange(0, 7).Draw(rt, "bad_class")
+			sub := rapid.IntRange(0, badClasses-1).Draw(rt, "bad_class")
 			quiet := rapid.IntRange(0, 3).Draw(rt, "quiet_after") == 0
 			ownID := rapid.IntRange(0, 3).Draw(rt, "replica_id_is_event_id") == 0
 			emptyName := rapid.IntRange(0, 5).Draw(rt, "empty_start_name") == 0
@@ -387,7 +387,7 @@ func TestC17(t *testing.T) {
 			for at := 0; at <= len(payloads); at++ {
 				c := &InjectCase{H: h, At: at, Sub: sub + at, Pacing: pacing, Quiet: quiet, OwnID: ownID, EmptyName: emptyName, Twin: twin}
 				journal("C17", "c17inject", c)
-				rec.Case(true, c, "inject", fmt.Sprintf("inject/class%d", c.Sub%8), fmt.Sprintf("inject/pacing=%d", pacing))
+				rec.Case(true, c, "inject", fmt.Sprintf("inject/class%d", c.Sub%badClasses), fmt.Sprintf("inject/pacing=%d", pacing))
 				if twin > 0 {
 					rec.Class("inject/second-short-packet-directly-behind")
 				}
